@@ -25,7 +25,8 @@
 (*     run on the bytes and the observation handed to Trace_FaultModel.    *)
 (*                                                                         *)
 (* t = "val":  value class vectors (old bytes, file length, table length,  *)
-(*     references, bytes of the previous / next element -> new bytes)      *)
+(*     references, implied value, bytes of the previous / next element ->  *)
+(*     new bytes)                                                          *)
 (*     binding the harness' value classes to NewValue.                     *)
 (***************************************************************************)
 EXTENDS FaultModel, Json
@@ -71,45 +72,52 @@ BaseFile(kind) ==
     [] kind = "woff" -> S!WriteWoff(Tables, [flavor |-> S!MagicOTTO, dir |-> Dir2], <<1, 2>>, Gaps, {2})
 Kinds == {"sfnt", "ttc", "woff"}
 
-\* fields of the model files: [off, w, role, level, rec, tlen, sv, pv, po, no]
+\* fields of the model files: [off, w, role, level, rec, tlen, sv, pv, dv, po, no]
 \*   sv / pv (offset fields): offset of the structure that contains the field / of that structure's
 \*   parent, -1 = none.  A directory record sits in its directory (sv = where the directory starts:
 \*   the table would be the directory itself), the directory of a collection member or of a WOFF file
 \*   hangs off the file header (pv = 0); a member offset of the collection header sits in that header.
 \*   po / no (fields that are elements of an array): position of the same member of the previous / next
 \*   record (directory records, member offsets of the collection header), -1 = none.
-FdS(off, w, role, level, rec, tlen, sv, pv, po, no) == [off |-> off, w |-> w, role |-> role, level |-> level, rec |-> rec, tlen |-> tlen, sv |-> sv, pv |-> pv, po |-> po, no |-> no]
+\*   dv (size / count fields): the value the rest of the file implies for the field, -1 = none.  The length of
+\*   a directory record is implied by the table it names (Len(Tables[tid]): known to the writer of the model
+\*   files, not read from the field), the length field of the WOFF header by the file, the count / length
+\*   fields inside the model tables by the bytes that follow them.
+FdD(off, w, role, level, rec, tlen, sv, pv, dv, po, no) == [off |-> off, w |-> w, role |-> role, level |-> level, rec |-> rec, tlen |-> tlen, sv |-> sv, pv |-> pv, dv |-> dv, po |-> po, no |-> no]
+FdS(off, w, role, level, rec, tlen, sv, pv, po, no) == FdD(off, w, role, level, rec, tlen, sv, pv, -1, po, no)
 FdR(off, w, role, level, rec, tlen, sv, pv) == FdS(off, w, role, level, rec, tlen, sv, pv, -1, -1)
 Fd(off, w, role, level, rec, tlen) == FdR(off, w, role, level, rec, tlen, -1, -1)
+FdV(off, w, role, level, rec, tlen, dv) == FdD(off, w, role, level, rec, tlen, -1, -1, dv, -1, -1)
 \* member at `off` of record k of n records of `size` bytes
 Po(off, k, size)    == IF k > 0 THEN off - size ELSE -1
 No(off, k, n, size) == IF k < n - 1 THEN off + size ELSE -1
 
+\* the directory of the model files names table k + 1 in record k (Dir2)
 SfntDirFields(at, n, flen, r0, par) ==
-       {Fd(at, 4, "version", "dir", 0, flen), Fd(at + 4, 2, "count", "dir", 0, flen), Fd(at + 6, 2, "value", "dir", 0, flen)}
-  \cup UNION {LET M(o, role, sv, pv) == FdS(at + 12 + 16 * k + o, 4, role, "dir", r0 + k + 1, flen, sv, pv,
-                                            Po(at + 12 + 16 * k + o, k, 16), No(at + 12 + 16 * k + o, k, n, 16))
-              IN {M(0, "index", -1, -1), M(4, "value", -1, -1), M(8, "offset", at, par), M(12, "length", -1, -1)} :
+       {Fd(at, 4, "version", "dir", 0, flen), FdV(at + 4, 2, "count", "dir", 0, flen, n), Fd(at + 6, 2, "value", "dir", 0, flen)}
+  \cup UNION {LET M(o, role, sv, pv, dv) == FdD(at + 12 + 16 * k + o, 4, role, "dir", r0 + k + 1, flen, sv, pv, dv,
+                                                Po(at + 12 + 16 * k + o, k, 16), No(at + 12 + 16 * k + o, k, n, 16))
+              IN {M(0, "index", -1, -1, -1), M(4, "value", -1, -1, -1), M(8, "offset", at, par, -1), M(12, "length", -1, -1, Len(Tables[k + 1]))} :
               k \in 0 .. (n - 1)}
 
 FieldsOf(kind) ==
   LET bs == BaseFile(kind)  flen == Len(bs) IN
   CASE kind = "sfnt" ->
          SfntDirFields(0, 2, flen, 0, -1)
-         \cup {Fd(S!Rd32(bs, 12 + 8), 2, "value", "table", 0, 3), Fd(S!Rd32(bs, 28 + 8) + 1, 1, "count", "table", 0, 5)}
+         \cup {Fd(S!Rd32(bs, 12 + 8), 2, "value", "table", 0, 3), FdV(S!Rd32(bs, 28 + 8) + 1, 1, "count", "table", 0, 5, 3)}
     [] kind = "ttc" ->
          {Fd(0, 4, "version", "dir", 0, flen), Fd(4, 2, "version", "dir", 0, flen), Fd(8, 4, "count", "dir", 0, flen),
           FdS(12, 4, "offset", "dir", 0, flen, 0, -1, -1, 16), FdS(16, 4, "offset", "dir", 0, flen, 0, -1, 12, -1)}
          \cup SfntDirFields(S!Rd32(bs, 12), 2, flen, 0, 0)
          \cup {Fd(S!Rd32(bs, 16) + 4, 2, "count", "dir", 0, flen)}
     [] kind = "woff" ->
-         {Fd(0, 4, "version", "dir", 0, flen), Fd(4, 4, "version", "dir", 0, flen), Fd(8, 4, "length", "dir", 0, flen),
-          Fd(12, 2, "count", "dir", 0, flen), Fd(14, 2, "value", "dir", 0, flen), Fd(16, 4, "length", "dir", 0, flen)}
-         \cup UNION {LET M(o, role, sv, pv) == FdS(44 + 20 * k + o, 4, role, "dir", k + 1, flen, sv, pv,
-                                                   Po(44 + 20 * k + o, k, 20), No(44 + 20 * k + o, k, 2, 20))
-                     IN {M(0, "index", -1, -1), M(4, "offset", 44, 0), M(8, "length", -1, -1), M(12, "length", -1, -1)} :
+         {Fd(0, 4, "version", "dir", 0, flen), Fd(4, 4, "version", "dir", 0, flen), FdV(8, 4, "length", "dir", 0, flen, flen),
+          FdV(12, 2, "count", "dir", 0, flen, 2), Fd(14, 2, "value", "dir", 0, flen), Fd(16, 4, "length", "dir", 0, flen)}
+         \cup UNION {LET M(o, role, sv, pv, dv) == FdD(44 + 20 * k + o, 4, role, "dir", k + 1, flen, sv, pv, dv,
+                                                       Po(44 + 20 * k + o, k, 20), No(44 + 20 * k + o, k, 2, 20))
+                     IN {M(0, "index", -1, -1, -1), M(4, "offset", 44, 0, -1), M(8, "length", -1, -1, -1), M(12, "length", -1, -1, Len(Tables[k + 1]))} :
                      k \in 0 .. 1}
-         \cup {Fd(S!Rd32(bs, 64 + 4), 1, "version", "table", 0, 16), Fd(S!Rd32(bs, 64 + 4) + 3, 2, "length", "table", 0, 16)}
+         \cup {Fd(S!Rd32(bs, 64 + 4), 1, "version", "table", 0, 16), FdV(S!Rd32(bs, 64 + 4) + 3, 2, "length", "table", 0, 16, 11)}
 
 \* directory records of the model files: [rec (offset), size, cnt, idx, n, offField, lenField]
 RecsOf(kind) ==
@@ -121,12 +129,12 @@ RecsOf(kind) ==
 
 \* concrete faults; `rec` and `role` are kept for the non-interference lemma
 Ov(f, vc)  == [k |-> "Overwrite", off |-> f.off, w |-> f.w, vc |-> vc, tlen |-> f.tlen, rec |-> f.rec, role |-> f.role, sv |-> f.sv, pv |-> f.pv,
-               po |-> f.po, no |-> f.no]
+               dv |-> f.dv, po |-> f.po, no |-> f.no]
 \* a relational class is instantiated on a field that has that sibling
 HasSib(vc, po, no) == (vc \in PrevClasses => po >= 0) /\ (vc \in NextClasses => no >= 0)
 FaultsOf(kind) ==
   LET fs == FieldsOf(kind)  rs == RecsOf(kind) IN
-       {x \in {Ov(f, vc) : f \in fs, vc \in ValueClasses} : ClassApplies(x.vc, x.role) /\ HasRef(x.vc, x.sv, x.pv) /\ HasSib(x.vc, x.po, x.no)}
+       {x \in {Ov(f, vc) : f \in fs, vc \in ValueClasses} : ClassApplies(x.vc, x.role) /\ HasRef(x.vc, x.sv, x.pv) /\ HasDer(x.vc, x.dv) /\ HasSib(x.vc, x.po, x.no)}
   \cup {[k |-> "Truncate", at |-> f.off] : f \in fs} \cup {[k |-> "Truncate", at |-> f.off + 1] : f \in fs}
   \cup {[k |-> "RemoveTable", rec |-> r.rec, size |-> r.size, cnt |-> r.cnt, idx |-> r.idx, n |-> r.n] : r \in rs}
   \cup {[k |-> "ShrinkLength", off |-> r.lenField, mode |-> m] : r \in rs, m \in ShrinkModes}
@@ -145,11 +153,13 @@ Olds ==  {<<0>>, <<255>>, <<127>>, <<128>>, <<0, 0>>, <<255, 255>>, <<127, 255>>
                                    <<255, 255, 255, 255, 255, 255, 255, 255>>}
 \* relational classes: the siblings are every pair of byte strings of Olds that have the width of the field
 ValCases ==
-       {[t |-> "val", vc |-> vc, old |-> old, flen |-> fl, tlen |-> tl, sv |-> 0, pv |-> 0, pb |-> <<>>, nb |-> <<>>] :
+       {[t |-> "val", vc |-> vc, old |-> old, flen |-> fl, tlen |-> tl, sv |-> 0, pv |-> 0, dv |-> -1, pb |-> <<>>, nb |-> <<>>] :
           vc \in ByteClasses, old \in Olds, fl \in {0, 53, 65536, 16909060}, tl \in {0, 255, 70000}}
-  \cup {[t |-> "val", vc |-> vc, old |-> old, flen |-> 53, tlen |-> 255, sv |-> sv, pv |-> pv, pb |-> <<>>, nb |-> <<>>] :
+  \cup {[t |-> "val", vc |-> vc, old |-> old, flen |-> 53, tlen |-> 255, sv |-> sv, pv |-> pv, dv |-> -1, pb |-> <<>>, nb |-> <<>>] :
           vc \in RefClasses, old \in Olds, sv \in {0, 5, 300, 70000, 16909060}, pv \in {0, 44, 65535, 65536}}
-  \cup UNION {{[t |-> "val", vc |-> vc, old |-> old, flen |-> 53, tlen |-> 255, sv |-> -1, pv |-> -1, pb |-> pb, nb |-> nb] :
+  \cup {[t |-> "val", vc |-> vc, old |-> old, flen |-> 53, tlen |-> 255, sv |-> -1, pv |-> -1, dv |-> dv, pb |-> <<>>, nb |-> <<>>] :
+          vc \in DerClasses, old \in Olds, dv \in {1, 2, 5, 8, 255, 256, 257, 65535, 65536, 70001, 16909060}}
+  \cup UNION {{[t |-> "val", vc |-> vc, old |-> old, flen |-> 53, tlen |-> 255, sv |-> -1, pv |-> -1, dv |-> -1, pb |-> pb, nb |-> nb] :
                  vc \in RelClasses, pb \in {x \in Olds : Len(x) = Len(old)}, nb \in {x \in Olds : Len(x) = Len(old)}} : old \in Olds}
 
 \* Cases are reached in two steps so that TLC's workers share the work: Init picks a root (the first
@@ -196,16 +206,27 @@ RelHolds(vc, w, new, pb, nb) ==
         [] vc \in {"uwrap-prev", "uwrap-next"} -> AddC(new, s, 0) = Zeros(w) /\ (s # Zeros(w) => new # Zeros(w))
         [] vc \in {"swrap-prev", "swrap-next"} -> AddC(new, s, 0) = Hi80(w)
 
+\* what a derived class promises about the new value `new` of a field of width w for which the other fields imply
+\* dv, stated on the relation and not on the way NewValue computes it (in the arithmetic of the field's width):
+\* new + 1 = dv; new + new = dv or new + new + 1 = dv
+DerHolds(vc, w, new, dv) ==
+  /\ Len(new) = w
+  /\ CASE vc = "der-1"    -> Inc(new) = BytesOf(dv, w)
+        [] vc = "der-half" -> Dbl(new) = BytesOf(dv, w) \/ Inc(Dbl(new)) = BytesOf(dv, w)
+
 ---------------------------------------------------------------------------
 \* the model's own lemmas, checked on every file case (one evaluation of the faulted file, its view
 \* and its expectation per case; Assert names the lemma that fails)
 LemmasAndEmit ==
   done =>
     CASE c.t = "gen"  -> PrintT(<<"CASE", ToJson(c)>>)
-      [] c.t = "val"  -> /\ Assert(c.vc \in RelClasses => RelHolds(c.vc, Len(c.old), NewValue(c.vc, c.old, c.flen, c.tlen, c.sv, c.pv, c.pb, c.nb), c.pb, c.nb), "LemmaRelValue")
-                         /\ PrintT(<<"VAL", ToJson([vc |-> c.vc, old |-> c.old, flen |-> c.flen, tlen |-> c.tlen, sv |-> c.sv, pv |-> c.pv,
+      [] c.t = "val"  -> /\ Assert(c.vc \in RelClasses => RelHolds(c.vc, Len(c.old), NewValue(c.vc, c.old, c.flen, c.tlen, c.sv, c.pv, c.dv, c.pb, c.nb), c.pb, c.nb), "LemmaRelValue")
+                         /\ Assert(c.vc \in DerClasses => DerHolds(c.vc, Len(c.old), NewValue(c.vc, c.old, c.flen, c.tlen, c.sv, c.pv, c.dv, c.pb, c.nb), c.dv), "LemmaDerValue")
+                         /\ Assert(c.vc = "half" => LET n == NewValue(c.vc, c.old, c.flen, c.tlen, c.sv, c.pv, c.dv, c.pb, c.nb) IN
+                                                     (Dbl(n) = c.old \/ Inc(Dbl(n)) = c.old) /\ n[1] < 128, "LemmaHalfValue")
+                         /\ PrintT(<<"VAL", ToJson([vc |-> c.vc, old |-> c.old, flen |-> c.flen, tlen |-> c.tlen, sv |-> c.sv, pv |-> c.pv, dv |-> c.dv,
                                                      pb |-> c.pb, nb |-> c.nb,
-                                                     new |-> NewValue(c.vc, c.old, c.flen, c.tlen, c.sv, c.pv, c.pb, c.nb)])>>)
+                                                     new |-> NewValue(c.vc, c.old, c.flen, c.tlen, c.sv, c.pv, c.dv, c.pb, c.nb)])>>)
       [] c.t = "file" ->
            LET base == BaseFile(c.kind)
                bs   == ApplySeq(base, c.seq)
@@ -253,29 +274,47 @@ LemmasAndEmit ==
                                           /\ e.font.tabs[IF q < f.rec THEN q ELSE f.rec].first
                                           /\ ~e.font.tabs[IF q < f.rec THEN f.rec ELSE q].first,
                         "LemmaRel")
+              \* a single derived-class overwrite makes the field disagree with the value the rest of the file implies in the
+              \* promised way; a directory record of a bare font / collection member whose length is one less than its table's
+              \* still names a range inside the file: the table is Ok and one byte shorter (the consumer is handed less data
+              \* than the table's own fields ask for - that is the point of the class)
+              /\ Assert((Len(c.seq) = 1 /\ c.seq[1].k = "Overwrite" /\ c.seq[1].vc \in DerClasses) =>
+                           LET f == c.seq[1] IN
+                           /\ f.dv >= 1 /\ DerHolds(f.vc, f.w, Window(bs, f.off, f.w), f.dv)
+                           /\ (f.rec > 0 /\ f.role = "length" /\ c.kind # "woff" /\ e.read = "Ok" /\ f.rec <= Len(e.font.tabs)) =>
+                                 /\ e.font.tabs[f.rec].st = "Ok"
+                                 /\ e.font.tabs[f.rec].len = (IF f.vc = "der-1" THEN f.dv - 1 ELSE f.dv \div 2),
+                        "LemmaDer")
               /\ PrintT(<<"FILE", ToJson([kind |-> c.kind, base |-> base, seq |-> c.seq, bytes |-> bs, view |-> v])>>)
 
 Sanity ==
-  /\ NewValue("dec", <<0, 0>>, 0, 0, -1, -1, <<>>, <<>>) = <<255, 255>>
-  /\ NewValue("dbl", <<128, 1>>, 0, 0, -1, -1, <<>>, <<>>) = <<0, 2>>
-  /\ NewValue("filelen", <<9, 9>>, 65537, 0, -1, -1, <<>>, <<>>) = <<0, 1>>
-  /\ NewValue("self", <<9, 9>>, 0, 0, 258, -1, <<>>, <<>>) = <<1, 2>>
-  /\ NewValue("parent", <<9>>, 0, 0, 7, 300, <<>>, <<>>) = <<44>>
-  /\ NewValue("eqprev", <<9, 9>>, 0, 0, -1, -1, <<1, 2>>, <<3, 4>>) = <<1, 2>>
-  /\ NewValue("eqnext", <<9, 9>>, 0, 0, -1, -1, <<1, 2>>, <<3, 4>>) = <<3, 4>>
-  /\ NewValue("prev+1", <<9, 9>>, 0, 0, -1, -1, <<1, 255>>, <<3, 4>>) = <<2, 0>>
-  /\ NewValue("next-1", <<9, 9>>, 0, 0, -1, -1, <<1, 2>>, <<3, 0>>) = <<2, 255>>
-  /\ NewValue("prev-1", <<9>>, 0, 0, -1, -1, <<0>>, <<3>>) = <<255>>
-  /\ NewValue("next+1", <<9>>, 0, 0, -1, -1, <<0>>, <<255>>) = <<0>>
-  /\ NewValue("uwrap-next", <<9, 9>>, 0, 0, -1, -1, <<>>, <<0, 5>>) = <<255, 251>>
-  /\ NewValue("uwrap-prev", <<9, 9>>, 0, 0, -1, -1, <<0, 0>>, <<>>) = <<0, 0>>
-  /\ NewValue("swrap-prev", <<9, 9>>, 0, 0, -1, -1, <<0, 5>>, <<>>) = <<127, 251>>       \* 0x7ffb + 5 = 0x8000
-  /\ NewValue("swrap-next", <<9, 9>>, 0, 0, -1, -1, <<>>, <<255, 156>>) = <<128, 100>>   \* -32668 + (-100) = -32768
+  /\ NewValue("dec", <<0, 0>>, 0, 0, -1, -1, -1, <<>>, <<>>) = <<255, 255>>
+  /\ NewValue("dbl", <<128, 1>>, 0, 0, -1, -1, -1, <<>>, <<>>) = <<0, 2>>
+  /\ NewValue("filelen", <<9, 9>>, 65537, 0, -1, -1, -1, <<>>, <<>>) = <<0, 1>>
+  /\ NewValue("self", <<9, 9>>, 0, 0, 258, -1, -1, <<>>, <<>>) = <<1, 2>>
+  /\ NewValue("parent", <<9>>, 0, 0, 7, 300, -1, <<>>, <<>>) = <<44>>
+  /\ NewValue("eqprev", <<9, 9>>, 0, 0, -1, -1, -1, <<1, 2>>, <<3, 4>>) = <<1, 2>>
+  /\ NewValue("eqnext", <<9, 9>>, 0, 0, -1, -1, -1, <<1, 2>>, <<3, 4>>) = <<3, 4>>
+  /\ NewValue("prev+1", <<9, 9>>, 0, 0, -1, -1, -1, <<1, 255>>, <<3, 4>>) = <<2, 0>>
+  /\ NewValue("next-1", <<9, 9>>, 0, 0, -1, -1, -1, <<1, 2>>, <<3, 0>>) = <<2, 255>>
+  /\ NewValue("prev-1", <<9>>, 0, 0, -1, -1, -1, <<0>>, <<3>>) = <<255>>
+  /\ NewValue("next+1", <<9>>, 0, 0, -1, -1, -1, <<0>>, <<255>>) = <<0>>
+  /\ NewValue("uwrap-next", <<9, 9>>, 0, 0, -1, -1, -1, <<>>, <<0, 5>>) = <<255, 251>>
+  /\ NewValue("uwrap-prev", <<9, 9>>, 0, 0, -1, -1, -1, <<0, 0>>, <<>>) = <<0, 0>>
+  /\ NewValue("swrap-prev", <<9, 9>>, 0, 0, -1, -1, -1, <<0, 5>>, <<>>) = <<127, 251>>       \* 0x7ffb + 5 = 0x8000
+  /\ NewValue("swrap-next", <<9, 9>>, 0, 0, -1, -1, -1, <<>>, <<255, 156>>) = <<128, 100>>   \* -32668 + (-100) = -32768
   /\ HasRel("eqprev", 2, <<1, 2>>, <<>>) /\ ~HasRel("eqnext", 2, <<1, 2>>, <<>>) /\ HasRel("max", 2, <<>>, <<>>)
   /\ ClassApplies("eqnext", "value") /\ ~ClassApplies("eqnext", "version") /\ ~ClassApplies("self", "value")
   /\ PrevClasses \cap NextClasses = {} /\ Cardinality(RelClasses) = 10
   /\ ClassApplies("self", "offset") /\ ~ClassApplies("parent", "count") /\ ClassApplies("max", "count")
   /\ ~HasRef("self", -1, 3) /\ HasRef("zero", -1, -1)
   /\ Half(<<1, 0, 0, 1>>) = <<0, 128, 0, 0>>
+  /\ NewValue("half", <<1, 1>>, 0, 0, -1, -1, -1, <<>>, <<>>) = <<0, 128>>
+  /\ NewValue("der-1", <<9, 9>>, 0, 0, -1, -1, 256, <<>>, <<>>) = <<0, 255>>
+  /\ NewValue("der-half", <<9>>, 0, 0, -1, -1, 9, <<>>, <<>>) = <<4>>
+  /\ NewValue("der-1", <<9>>, 0, 0, -1, -1, 65537, <<>>, <<>>) = <<0>>
+  /\ HasDer("der-1", 1) /\ ~HasDer("der-1", 0) /\ ~HasDer("der-half", -1) /\ HasDer("dec", -1)
+  /\ ClassApplies("der-1", "length") /\ ClassApplies("der-half", "count") /\ ClassApplies("der-1", "offset") /\ ~ClassApplies("der-1", "index") /\ ClassApplies("half", "version")
+  /\ Cardinality(ValueClasses) = 26
   /\ ~Safe("Panic") /\ ~Safe("Timeout") /\ Safe("Err")
 =============================================================================
